@@ -23,7 +23,10 @@ class TsvNtTriplesYielder(BaseTriplesYielder):
     def yield_triples(self):
         self._reset_count()
         for a_line in self._line_reader.read_lines():
-            tokens = self._look_for_tokens(a_line.strip())
+            stripped_line = a_line.strip()
+            if stripped_line == "" or stripped_line.startswith("#"):
+                continue  # A blank line or a comment line: not a statement, not an error
+            tokens = self._look_for_tokens(stripped_line)
             if len(tokens) != 3:
                 self._error_triples += 1
                 log_msg(verbose=False, msg="This line caused error: " + a_line)
